@@ -25,6 +25,32 @@ def parsed_program(mir, text):
     return _PARSED[key]
 
 
+def preparse(ctx, shapes, profile='dev'):
+    """[(text, spec)] -> [(text, spec, debug tree)]: every shape is parsed by the native build of the real parser (in the
+    parent process, before the jobs fork); a shape the parser rejects is a generator error, never silently dropped"""
+    nat = ctx.native(profile); out = []
+    for text, spec in shapes:
+        r = nat.call({'op': 'parse', 'src': text}, timeout=20)
+        if not r.get('ok'): raise Unmodelled(f'generated shape does not parse with the current parser: {text!r}: {r.get("error") or r}')
+        out.append((text, spec, r['ast']))
+    return out
+
+
+def program_of_shape(mir, shape):
+    """Program Adt of a pre-parsed shape (cached per process)"""
+    text = shape[0]
+    key = (id(mir), text)
+    if key not in _PARSED:
+        if len(shape) > 2 and shape[2] is not None:
+            from ..vm import VM, Explorer
+            from ..astparse import program_from_debug
+            sub = VM(mir, Explorer()); sub.str_mode = 'bounded'
+            _PARSED[key] = program_from_debug(sub, mir, shape[2])
+            if len(_PARSED) > 4000: _PARSED.clear(); 
+        else: return parsed_program(mir, text)
+    return _PARSED[key]
+
+
 HOLE_NUM = re.compile(r'^900(\d)$')
 
 
